@@ -112,7 +112,7 @@ Proof.
     split; [cbn [fdiv_d dmul_f dpow re]; rewrite npow_m1 by (rewrite R1; exact H3); rewrite R1; cbn; field; exact H3|].
     intros w. unfold fdiv_d, dmul_f, vscale_l.
     evar_last. apply dR_scal. apply dR_inv; [apply D1|rewrite Hs; exact H3].
-    rewrite coef_map by (cbn; ring). unfold dpow.
+    rewrite coef_map by (cbn; ring). rewrite dpow_unguard.
     rewrite coef_map by (cbn; ring).
     rewrite npow_m2 by (rewrite R1; exact H3).
     rewrite ?Hs, ?R1. cbn. field. exact H3.
@@ -123,11 +123,11 @@ Proof.
     split; [cbn; rewrite R1; reflexivity|]. intros w. unfold dneg_ref, vscale_r.
     evar_last. apply dR_opp; apply D1. rewrite coef_map by (cbn; ring). cbn; ring.
   - (* Pow *) destruct HD as (H1 & H3). destruct (IHe H1) as (W1 & R1 & D1). split; [apply wf_map; exact W1|].
-    split; [cbn; rewrite R1; reflexivity|]. intros w. unfold dpow.
+    split; [cbn; rewrite R1; reflexivity|]. intros w. rewrite dpow_unguard.
     evar_last. apply (dR_comp (fun y => Rpowf y p)); [cbv beta; rewrite Hs; apply is_derive_Rpowf; exact H3|apply D1].
     rewrite coef_map by (cbn; ring). cbv beta. rewrite ?Hs, ?R1. cbn. ring.
   - (* PowRef *) destruct HD as (H1 & H3). destruct (IHe H1) as (W1 & R1 & D1). split; [apply wf_map; exact W1|].
-    split; [cbn; rewrite R1; reflexivity|]. intros w. unfold dpow_ref.
+    split; [cbn; rewrite R1; reflexivity|]. intros w. rewrite dpow_ref_unguard.
     evar_last. apply (dR_comp (fun y => Rpowf y p)); [cbv beta; rewrite Hs; apply is_derive_Rpowf; exact H3|apply D1].
     rewrite coef_map by (cbn; ring). cbv beta. rewrite ?Hs, ?R1. cbn. ring.
   - (* Exp *) destruct (IHe HD) as (W1 & R1 & D1). split; [apply wf_map; exact W1|].
@@ -203,7 +203,7 @@ Proof.
   - intros v. rewrite C1, coef_cst. unfold ddiv_f, vscale_l. rewrite coef_map by (cbn; ring). cbn. field. exact N.
   - rewrite R2. cbn [fdiv_d dmul_f dpow re]. rewrite npow_m1 by exact N. cbn. field. exact N.
   - intros v. rewrite C2, coef_cst. unfold fdiv_d, dmul_f, vscale_l. rewrite coef_map by (cbn; ring).
-    unfold dpow. rewrite coef_map by (cbn; ring). rewrite npow_m2 by exact N. cbn. field. exact N.
+    rewrite dpow_unguard. rewrite coef_map by (cbn; ring). rewrite npow_m2 by exact N. cbn. field. exact N.
 Qed.
 (* owned / borrowed variants *)
 Lemma owned_ref_neg a : dneg a ≈ dneg_ref a.
